@@ -15,7 +15,7 @@ EXPL = ("Decides: SA-TAIL: on every construction route the RLE block is terminat
 
 
 def run(ctx):
-    cfgs = ["rel", "unchecked"] if ctx.tier == "quick" else ["rel", "dbg", "strict", "unsafe", "nodef", "unchecked"]
+    cfgs = ["rel", "unchecked", "unsafe"] if ctx.tier == "quick" else ["rel", "dbg", "strict", "unsafe", "nodef", "unchecked"]
     ctx.progs(cfgs)  # build all configurations in parallel
     for c in cfgs:
         prog = ctx.prog(c)
@@ -30,6 +30,7 @@ def run(ctx):
         ctx.guard("C07", "runs", lambda: normal.run_limit_agreement(ctx, prog))
         ctx.guard("C07", "rle-validator", lambda: rle.validator_refusals(ctx, prog))
         ctx.guard("C07", "expand-step", lambda: rle.expand_step(ctx, prog))
+        ctx.guard("C07", "expand-copy", lambda: rle.expand_copy(ctx, prog))
         ctx.guard("C07", "summaries", lambda: summary.check(ctx, prog, 'hash_dual::', floor=10))
         ctx.guard("C07", "traits", lambda: vis.trait_census(ctx, prog, scope='hash_dual::'))
         if c == "unchecked":
